@@ -82,6 +82,9 @@ type Block struct {
 	List  int    `json:"list,omitempty"`  // item: index into Doc.Lists
 	Depth int    `json:"depth,omitempty"` // item: 0-based nesting depth
 	Table *Table `json:"table,omitempty"`
+	// Numbered (heading, DOCX): the heading paragraph also carries the numbering of list List at level Depth
+	// ("1.2 Scope"); it is a heading all the same
+	Numbered bool `json:"numbered,omitempty"`
 }
 
 // List kinds (per level).
@@ -272,6 +275,9 @@ func (d *Doc) Validate() error {
 		case BHeading:
 			if b.Level < 1 || b.Level > 9 {
 				return fmt.Errorf("%s: heading level %d", where, b.Level)
+			}
+			if b.Numbered && (b.List < 0 || b.List >= len(d.Lists) || b.Depth < 0 || b.Depth >= len(d.Lists[b.List].Kinds)) {
+				return fmt.Errorf("%s: numbered heading without a list level", where)
 			}
 		case BItem:
 			if b.List < 0 || b.List >= len(d.Lists) {
